@@ -98,6 +98,27 @@ fn cmd_lift(v: &Value) -> Value {
     out
 }
 
+/// `evalexpr`: evaluate a variable-free expression with the library's own constant folding (used to validate the SMT and
+/// Python semantics of the IR against the real code).
+fn eval_expr(e: &Expression) -> Option<Bitvector> {
+    match e {
+        Expression::Const(c) => Some(c.clone()),
+        Expression::BinOp { op, lhs, rhs } => eval_expr(lhs)?.bin_op(*op, &eval_expr(rhs)?).ok(),
+        Expression::UnOp { op, arg } => eval_expr(arg)?.un_op(*op).ok(),
+        Expression::Cast { op, size, arg } => eval_expr(arg)?.cast(*op, *size).ok(),
+        Expression::Subpiece { low_byte, size, arg } => Some(eval_expr(arg)?.subpiece(*low_byte, *size)),
+        _ => None,
+    }
+}
+
+fn cmd_evalexpr(v: &Value) -> Value {
+    let e = conv::expr_from(&v["e"]);
+    match eval_expr(&e) {
+        Some(b) => json!({"val": conv::bv_to_hex(&b), "size": u64::from(b.bytesize()), "bytesize": u64::from(e.bytesize())}),
+        None => json!({"unknown": true, "bytesize": u64::from(e.bytesize())}),
+    }
+}
+
 /// `fmt`: { "s": format string } -> real parse_format_string_parameters result; { "spec": "lf" } -> real Datatype::from + size
 fn cmd_fmt(v: &Value) -> Value {
     use cwe_checker_lib::intermediate_representation::{Datatype, DatatypeProperties};
@@ -144,6 +165,7 @@ fn main() {
         };
         let r = match cmd {
             "domain" => catch_unwind(AssertUnwindSafe(|| domain::cmd_domain(&v))).unwrap_or_else(|p| json!({"panic": panic_msg(p)})),
+            "evalexpr" => catch_unwind(AssertUnwindSafe(|| cmd_evalexpr(&v))).unwrap_or_else(|p| json!({"panic": panic_msg(p)})),
             "fmt" => catch_unwind(AssertUnwindSafe(|| cmd_fmt(&v))).unwrap_or_else(|p| json!({"panic": panic_msg(p)})),
             "pi" => catch_unwind(AssertUnwindSafe(|| pi::cmd_pi(&v))).unwrap_or_else(|p| json!({"panic": panic_msg(p)})),
             "lift" => catch_unwind(AssertUnwindSafe(|| cmd_lift(&v))).unwrap_or_else(|p| json!({"panic": panic_msg(p)})),
